@@ -65,11 +65,12 @@ class Iso(Scenario):
     modules = ["mxlpy.model", "mxlpy.label_map"]
     float_shim = ["mxlpy.model"]
 
-    def __init__(self, net, lmap, init_label=None):
+    def __init__(self, net, lmap, init_label=None, relabel=False):
+        self.relabel = relabel  # the mapper was queried / built with other label counts first, which are then re-declared in place
         self.net = net
         self.lmap = tuple(lmap)
         self.init_label = init_label
-        self.key = f"C05/{net}/map{''.join(map(str, lmap)) or '-'}{'' if init_label is None else '/init' + str(init_label)}"
+        self.key = f"C05/{net}/map{''.join(map(str, lmap)) or '-'}{'' if init_label is None else '/init' + str(init_label)}{'/relabelled' if relabel else ''}"
 
     def base(self, ctx):
         from mxlpy import Model
@@ -100,7 +101,20 @@ class Iso(Scenario):
         prods = [c for c, n in st.items() if n > 0 for _ in range(n)]
         tsl = sum(labels.get(c, 0) for c in subs)
         tpl = sum(labels.get(c, 0) for c in prods)
-        mapper = LabelMapper(base, label_variables=dict(labels), label_maps={"v": list(self.lmap)})
+        if self.relabel:
+            coarse = {c: n + 1 for c, n in labels.items()}
+            mapper = LabelMapper(base, label_variables=coarse, label_maps={"v": list(self.lmap)})
+            try:
+                mapper.get_isotopomers()
+                for c in coarse:
+                    mapper.get_isotopomer_of(c)
+                mapper.build_model()
+            except Exception:  # noqa: BLE001,S110  the map need not fit the first counts
+                pass
+            for c, n in labels.items():
+                mapper.label_variables[c] = n
+        else:
+            mapper = LabelMapper(base, label_variables=dict(labels), label_maps={"v": list(self.lmap)})
         init = None if self.init_label is None else {next(iter(labels)): self.init_label}
         if len(self.lmap) < tsl:
             try:
@@ -234,6 +248,10 @@ def scenarios(tier, seed):
     scs.append(Iso("uni", (1, 0), init_label=1))
     scs.append(Iso("uni", (0, 1), init_label=[0, 1]))
     scs.append(Iso("merge", (1, 0), init_label=0))
+    # one mapper object used for two label-count declarations in a row
+    scs.append(Iso("uni", (0, 1), relabel=True))
+    scs.append(Iso("merge", (1, 0), relabel=True))
+    scs.append(Iso("uni12", (0, 0), init_label=0, relabel=True))
     # minimal scenario: homodimer substrate
     scs.append(Iso("dimer", (0, 1)))
     scs.append(Iso("dimer", (1, 0)))
